@@ -268,7 +268,7 @@ func (s *Sim) genHtlcCmd(link int) SubCmd {
 		// the runs that are meant to provoke known findings.
 		var keep []*Attempt
 		for _, a := range open {
-			if !(a.SetID != [32]byte{} && s.resolvedShards(a)) {
+			if !(a.SetID != [32]byte{} && (s.resolvedShards(a) || s.burstAmp[a.N])) {
 				keep = append(keep, a)
 			}
 		}
@@ -277,6 +277,9 @@ func (s *Sim) genHtlcCmd(link int) SubCmd {
 	if len(open) > 0 && r.Draw(8) < s.k.ContinueNum {
 		a := open[len(open)-1-r.Draw(len(open))]
 		s.shard(h, a)
+		if s.burstAmp != nil && a.SetID != [32]byte{} {
+			s.burstAmp[a.N] = true
+		}
 		cmd.CancelSet = r.Draw(24) == 23
 		return cmd
 	}
@@ -506,6 +509,8 @@ func (s *Sim) keysend(h *HtlcSpec) {
 func (s *Sim) genBurst() []SubCmd {
 	r := s.r
 	n := 2 + r.Draw(2)
+	s.burstAmp = map[int]bool{}
+	defer func() { s.burstAmp = nil }()
 	var subs []SubCmd
 	usedLinks := map[int]bool{}
 	rpcUsed := false
